@@ -1078,6 +1078,13 @@ func (e *executor) executeGroupBy(ctx context.Context, index string, c *pql.Call
 		return nil, err
 	} else if hasLimit {
 		limit = int(lim)
+		// With an offset the first offset+limit groups are needed before
+		// the offset is applied.
+		if offset, hasOffset, err := c.UintArg("offset"); err != nil {
+			return nil, err
+		} else if hasOffset {
+			limit += int(offset)
+		}
 	}
 	filter, _, err := c.CallArg("filter")
 	if err != nil {
@@ -1140,6 +1147,8 @@ func (e *executor) executeGroupBy(ctx context.Context, index string, c *pql.Call
 	} else if hasOffset {
 		if int(offset) < len(results) {
 			results = results[offset:]
+		} else {
+			results = results[:0]
 		}
 	}
 	// Apply limit.
@@ -1259,6 +1268,11 @@ func (e *executor) executeGroupByShard(ctx context.Context, index string, c *pql
 		return nil, err
 	} else if hasLimit {
 		limit = int(lim)
+		if offset, hasOffset, err := c.UintArg("offset"); err != nil {
+			return nil, err
+		} else if hasOffset {
+			limit += int(offset)
+		}
 	}
 
 	results := make([]GroupCount, 0)
